@@ -1027,6 +1027,30 @@ class Engine:
         return names
 
     def st_For(self, s, st):
+        lab0 = self.loop_labels[id(s)]
+        if self.c.loops.get(lab0) is None and isinstance(s.iter, ast.Tuple) and 1 <= len(s.iter.elts) <= 4 and not s.orelse:
+            # `for x in (a, b, c):` over a literal tuple with no loop contract: executed element by element (exact, no invariant needed)
+            states = [st]
+            finals = []
+            for elt in s.iter.elts:
+                nxt_states = []
+                for cur in states:
+                    outs = self.with_raises(lambda cur=cur, elt=elt: self.ev(elt, cur, False), cur,
+                                            lambda v, st2: self.assign(s.target, v, st2, s), s)
+                    for o in outs:
+                        if o.kind != "normal":
+                            finals.append(o)
+                            continue
+                        for o2 in self.exec_block(s.body, o.st):
+                            if o2.kind in ("normal", "continue"):
+                                nxt_states.append(o2.st)
+                            elif o2.kind == "break":
+                                finals.append(Outcome("normal", o2.st))
+                            else:
+                                finals.append(o2)
+                states = nxt_states
+            self.loop_seen.add(lab0)
+            return finals + [Outcome("normal", x) for x in states]
         lab, spec = self.loop_spec(s)
         if spec.iter_name:
             enum = isinstance(s.iter, ast.Call) and ast.unparse(s.iter.func) == "enumerate" and len(s.iter.args) == 1
@@ -1197,11 +1221,54 @@ class Engine:
         q = f"{self.qualname}.<locals>.{s.name}"
         if q not in self.registry:
             raise EngineError(f"nested function {s.name} has no contract ({q})")
-        st.env[s.name] = self.closure_value(q, st)
+        st.env[s.name] = self.closure_value(q, st, s)
         return [Outcome("normal", st)]
 
-    def closure_value(self, q, st):
-        raise EngineError("closures: tier B")
+    def closure_value(self, q, st, node=None):
+        """`def f(...)` inside a function under contract: f has its own contract (proved separately against the same source, with its
+        captured names as extra parameters).  The definition yields a pure function value F with
+            forall args: requires(args, captured) -> ensures(F(args), args, captured)
+        where `captured` are the CURRENT values of the captured names (they must not be re-assigned after the definition: checked)."""
+        callee = self.registry[q]
+        pn = [p for p in callee.params if p not in callee.closure]
+        if not all(isinstance(callee.params[p], NdArray) and callee.params[p].rank == 1 for p in pn):
+            raise EngineError("nested function whose parameters are not rank-1 arrays")
+        for cname in callee.closure:
+            if cname not in st.env:
+                raise EngineError(f"nested function {q}: captured name {cname} is not bound at the definition")
+        if node is not None:
+            later = [n for n in ast.walk(self.fn) if isinstance(n, (ast.Assign, ast.AugAssign, ast.AnnAssign)) and n.lineno > node.end_lineno
+                     and any(isinstance(t, ast.Name) and t.id in callee.closure
+                             for t in (n.targets if isinstance(n, ast.Assign) else [n.target]))]
+            if later:
+                raise EngineError(f"nested function {q}: a captured name is re-assigned after the definition (line {later[0].lineno})")
+        sorts = [z3.ArraySort(I, V.elem_sort(callee.params[p].dtype)) for p in pn]
+        ret = sort_of("Real") if callee.returns is None else (I if isinstance(callee.returns, IntT) else R)
+        f = z3.Function(V.fresh_name("closure_" + q.rpartition(".")[2]), *sorts, ret)
+        cst = State(env={}, pc=st.pc, heap=st.heap, nxt=st.nxt)
+        qv = []
+        import re as _re
+        req_text = " and ".join(c.text for c in callee.requires)
+        for p, srt in zip(pn, sorts):
+            # the value is a function of the array contents; the length is the one the callee's requires fixes (`len(p) == K`)
+            m = _re.search(r"\blen\(%s\) == (\d+)" % _re.escape(p), req_text)
+            if m is None:
+                raise EngineError(f"nested function {q}: its requires must fix len({p})")
+            d = V.fresh(p, srt)
+            qv.append(d)
+            cst.env[p] = Arr(d, [z3.IntVal(int(m.group(1)))], callee.params[p].dtype)
+        for cname in callee.closure:
+            cst.env[cname] = st.env[cname]
+        sub = self.sub_engine(callee, q, cst, st)
+        cst.old = dict(cst.env)
+        cst.oldheap = None
+        cst.env["result"] = f(*[cst.env[p].data for p in pn])
+        pre = [sub.spec(cl, cst) for cl in callee.requires]
+        post = [sub.spec(cl, cst) for cl in callee.ensures]
+        if post:
+            st.assume(z3.ForAll(qv, z3.Implies(z3.And(*pre), z3.And(*post)), patterns=[cst.env["result"]]))
+        self.callees.add(q)
+        return Func(f, name=q)
 
     def st_With(self, s, st):
         raise EngineError("with: tier B")
@@ -1223,6 +1290,11 @@ class Engine:
                 self.assign(t.value, new, st, node)
         elif isinstance(t, ast.Attribute):
             base = self.ev(t.value, st, False)
+            if isinstance(base, Opt) and isinstance(base.val, Ref):
+                # attribute store on an Optional[object]: None has no attributes (obligation), then the object's field
+                self.oblige(st, z3.Not(base.isnone), f"not-None@{getattr(node, 'lineno', 0)}:store", "exception-freedom",
+                            getattr(node, "lineno", None), ast.unparse(t.value) + " is not None")
+                base = base.val
             if isinstance(base, Ref):
                 self.set_field(base, t.attr, v, st, node)
             elif isinstance(base, Rec):
